@@ -707,7 +707,7 @@ def c03(tier):
     # messages changed through their setters after Decode (as the broker does), and packets with a non-minimal remaining length
     mods = codec_variants(v, "mods")
     res = core.merge(core.run_sharded(["codec"], mods, timeout=900))
-    account(v, res, "changed-after-decode", {"pairs": len(mods)}, own={"C03"})
+    account(v, res, "changed-after-decode (also: clones stay independent)", {"pairs": len(mods)}, own={"C03"})
     v.cov["distinct_nontrivial"] += len(mods)
     edits = codec_variants(v, "edits")
     res = core.merge(core.run_sharded(["codec"], edits, timeout=900))
@@ -753,6 +753,11 @@ def c04(tier):
     # every reference case (all 14 types, boundary lengths, repeated filters) is accepted with its field values
     resc = core.merge(core.run_sharded(["codec"], cases, timeout=900))
     account(v, resc, "reference-cases(decode direction)", own={"C04"})
+    # a message object that held another packet before is decoded into again (pairs of Codec!Mods)
+    mods = codec_variants(v, "mods")
+    resm = core.merge(core.run_sharded(["codec"], mods, timeout=900))
+    account(v, resm, "decode-into-a-used-message", {"pairs": len(mods)}, own={"C04"})
+    v.cov["distinct_nontrivial"] += len(mods)
     pads = codec_variants(v, "pads")
     resp = core.merge(core.run_sharded(["codec"], pads, timeout=900))
     account(v, resp, "padded-remaining-length", {"accepted": resp.get("counts", {}).get("padded_accepted", 0),
